@@ -21,8 +21,8 @@ CHIRAL = {"chiral", "asym4", "asym5"}          # patterns whose mirror image is 
 # tolerances for which the pair is between atol and 2·atol apart: one structure atom near their midpoint is then
 # within atol of BOTH pattern sites — only the pair-distance screen (|d_pattern − 0| ≤ atol fails) keeps one atom from
 # standing in for two. Registered in findlib's table for the C01 check only (this module is imported by c01.py alone).
-CLOSE_PAIR = {"h2frame": [0.4, 0.5, 0.6],      # H–H 0.75
-              "twinF": [0.2, 0.3]}             # F–F 0.375
+CLOSE_PAIR = {"h2frame": [0.4, 0.5, 0.6, 0.8],      # H–H 0.75 ; 0.8: the tolerance exceeds the pair distance
+              "twinF": [0.2, 0.3, 0.4]}             # F–F 0.375 ; 0.4 likewise
 fl.PATTERNS.setdefault("h2frame", (["C", "O", "N", "H", "H"],
                                    [(0, 0, 0), (0, 0, 3.0), (2.0, 0, 0.5), (0.75, 0.375, 1.5), (0.75, -0.375, 1.5)]))
 fl.PATTERNS.setdefault("twinF", (["C", "N", "O", "F", "F"],
@@ -202,6 +202,145 @@ def ase_case(rng, atol, pname=None):
     return case
 
 
+def left_handed(rng, cell):
+    """the same lattice described by a LEFT-handed triple of vectors (negative determinant): two rows exchanged or one
+    row reversed"""
+    cell = [list(r) for r in cell]
+    if rng.random() < 0.5:
+        i, j = rng.sample(range(3), 2)
+        cell[i], cell[j] = cell[j], cell[i]
+    else:
+        i = rng.randrange(3)
+        cell[i] = [-v for v in cell[i]]
+    return cell
+
+
+def tight_cell(rng, kind, pname, atol):
+    """a cell whose smallest perpendicular width exceeds diameter + 2·atol by 3-30 % only (the quantifier's bound is
+    `width > diameter + 2·atol`; `findlib.planted_structure` keeps a margin of 1 A)"""
+    d = fl.diam(fl.pattern_json(pname)["pos"])
+    D = d + 2 * atol
+    for _ in range(200):
+        cell = fl.make_cell(rng, kind, max(4.0, D + 1.0))
+        w = min(fl.perp_widths(cell))
+        target = D * rng.choice([1.03, 1.1, 1.3])
+        f = Fraction(int(math.ceil(target / w * 64)), 64)
+        cell = [[Fraction(v) * f for v in row] for row in cell]
+        if min(fl.perp_widths(cell)) > D * 1.02:
+            return cell
+    raise RuntimeError("no tight cell")
+
+
+def tight_case(rng):
+    """small cells just inside the quantifier, right- or left-handed"""
+    pname = rng.choice([n for n in fl.PATTERNS if len(fl.PATTERNS[n][0]) >= 2 and n != "int3"])
+    atol = rng.choice(TINY_ATOLS + [0.02, 0.05, 0.05, 0.1, 0.2])
+    kind = rng.choice(["ortho", "tri+", "tri-", "rot"])
+    cell = tight_cell(rng, kind, pname, atol)
+    tag = "tight"
+    if rng.random() < 0.4:
+        cell = left_handed(rng, cell)
+        tag = "tight,left-handed"
+    case = empty_case(pname, cell, kind)
+    plant(rng, case, atol, ncopies=rng.randint(1, 2), boundary=rng.random() < 0.6)
+    for k, p in (("stretch", 0.5), ("wrongelem", 0.4), ("merged", 0.2)):
+        if rng.random() < p:
+            add_decoy(rng, case, k, atol)
+    if not case["elems"]:
+        plant(rng, case, atol, ncopies=1)
+    case["info"]["boundary"] = tag
+    return case, atol, valid_hints(rng, case["pattern"])
+
+
+FLAT = ["collinear3", "collinear_asym", "planar4", "planar4@y", "planar4@z", "collinear_asym@y", "collinear_asym@z"]
+
+
+def add_sideways(rng, case, atol, frac_lo=0.7):
+    """a copy of a COLLINEAR / PLANAR pattern with one inner atom pushed 4-6 atol OFF the line / plane: every interatomic
+    distance changes only in second order (the pair-distance screen cannot see it), but no rigid motion brings the atom
+    within atol. Placed far from the origin (all fractional coordinates >= frac_lo): a tolerance that grows with the
+    coordinate (a relative term) lets it through there and not near the origin."""
+    pat = case["pattern"]
+    P = np.array(pat["pos"], dtype=float)
+    k = len(P)
+    if k < 3:
+        return False
+    d2 = ((P[:, None, :] - P[None, :, :]) ** 2).sum(axis=2)
+    a, b = [int(x) for x in np.unravel_index(np.argmax(d2), d2.shape)]
+    u = P[b] - P[a]
+    # normal of the pattern's plane (any perpendicular for a collinear pattern)
+    others = [i for i in range(k) if i not in (a, b)]
+    nrm = None
+    for i in others:
+        c = np.cross(u, P[i] - P[a])
+        if np.linalg.norm(c) > 1e-6:
+            nrm = c / np.linalg.norm(c)
+            break
+    if nrm is None:
+        c = np.cross(u, [1.0, 0.3, 0.2])
+        nrm = c / np.linalg.norm(c)
+    if any(abs(np.dot(P[i] - P[a], nrm)) > 1e-9 for i in range(k)):
+        return False                      # not a flat pattern
+    # the atom to move: neither end of the axis nor (if avoidable) the atom farthest from it (the orientation point)
+    off = {i: np.linalg.norm(np.cross(u, P[i] - P[a])) for i in others}
+    j = min(others, key=lambda i: off[i]) if len(others) > 1 else others[0]
+    step = nrm * rng.uniform(4, 6) * atol * rng.choice([1, -1])
+    src = [[Fraction(x).limit_denominator(10 ** 6) for x in p] for p in pat["pos"]]
+    src[j] = [Fraction(float(P[j][c] + step[c])).limit_denominator(10 ** 12) for c in range(3)]
+    g = None
+    for _ in range(40):
+        fr = [rng.uniform(frac_lo, 0.97) for _ in range(3)]
+        g = _place(rng, case, src, list(pat["elems"]), frac=fr, perturb=0.0, tries=1)
+        if g is not None:
+            break
+    if g is None:
+        return False
+    case["decoys"].append(("sideways", g))
+    case["info"].setdefault("extra", []).append("sideways")
+    return True
+
+
+def far_case(rng):
+    """a LARGE cell (60-80 A) and a small tolerance: fragments far from the origin — every tolerance must be the same
+    there as near the origin"""
+    pname = rng.choice(FLAT)
+    atol = rng.choice([2e-5, 1e-4, 1e-4])
+    kind = rng.choice(["ortho", "ortho", "tri+"])
+    cell = fl.make_cell(rng, kind, rng.choice([60.0, 80.0]))
+    case = empty_case(pname, cell, kind)
+    plant(rng, case, atol, ncopies=rng.randint(1, 2), boundary=rng.random() < 0.3)
+    for _ in range(rng.randint(1, 2)):
+        add_sideways(rng, case, atol)
+    if rng.random() < 0.5:
+        add_sideways(rng, case, atol, frac_lo=0.0)
+    if rng.random() < 0.5:
+        add_decoy(rng, case, "stretch", atol)
+    if not case["elems"]:
+        plant(rng, case, atol, ncopies=1)
+    case["info"]["boundary"] = "far"
+    return case, atol, (None, None, None)
+
+
+def unwrap_atoms(rng, case, p_atom=0.6, span=2):
+    """store atoms OUTSIDE the unit cell: every chosen atom is moved by its own integer lattice vector (−span…+span cells
+    along each lattice vector) — the same crystal, as an unwrapped trajectory or a data file that does not wrap stores it.
+    Atoms sitting within 1e-6 of a cell face are left alone (whether they count as inside is a rounding matter)."""
+    L = np.array(case["cell"], dtype=float)
+    Li = np.linalg.inv(L)
+    moved = 0
+    for i, q in enumerate(case["pos"]):
+        f = np.array(q, dtype=float).dot(Li)
+        if np.abs(f - np.round(f)).min() < 1e-6 or rng.random() > p_atom:
+            continue
+        n = [rng.randint(-span, span) for _ in range(3)]
+        if not any(n):
+            continue
+        case["pos"][i] = [float(x) for x in (np.array(q, dtype=float) + np.array(n, dtype=float).dot(L))]
+        moved += 1
+    case["info"]["unwrapped"] = moved
+    return moved
+
+
 def random_case(rng):
     """one structure of the random stream: findlib.planted_structure + extra decoys + hints + atol"""
     atol = rng.choice(ALL_ATOLS)
@@ -257,7 +396,8 @@ def call_style(rng, atol, hints):
     return {"positions": rng.random() < 0.75,
             "omit_defaults": rng.random() < 0.5,       # leave out atol when it is the default 0.05, hints when None
             "verbose": rng.random() < 0.05,
-            "np_hints": rng.random() < 0.25}           # indices as numpy integers (what np.argmax hands to callers)
+            "np_hints": rng.random() < 0.25,           # indices as numpy integers (what np.argmax hands to callers)
+            "neg_hints": rng.random() < 0.2}           # indices counted from the end (-1 = last atom)
 
 
 def planted_at(rng, pname, cell_kind, pose, frac, atol):
@@ -462,6 +602,12 @@ def random_sequence(rng):
             c = empty_case(pn, cell, ck)
             plant(rng, c, atol, ncopies=rng.randint(1, 2), boundary=True)     # copies across faces: images matter
             add_decoy(rng, c, rng.choice(["stretch", "wrongelem", "mirror"]), atol)
+            # atoms that would be a copy across a face under the OTHER cell of the pair (same diagonal): a search that
+            # carries lattice data over from the previous call reports them
+            other = tri if ck == "ortho" else o
+            for _try in range(3):
+                if add_ghost(rng, c, atol, lattice=[[float(v) for v in row] for row in other]):
+                    break
             if not c["elems"]:
                 plant(rng, c, atol, ncopies=1)
             cases.append(c)
@@ -617,7 +763,7 @@ def alt_lattices(cell):
     return {"std": np.array(cellpar_to_cell(cell_to_cellpar(L))), "transpose": L.T.copy()}
 
 
-def add_ghost(rng, case, atol, which=None):
+def add_ghost(rng, case, atol, which=None, lattice=None):
     """atoms that WOULD be a copy of the pattern across a cell face if the lattice were an alternative reading of the cell
     (`alt_lattices`), but are not one under the true lattice (verified: some pattern distance is clearly not reproduced
     by any periodic images). All atoms lie inside the true cell. A search working with a re-oriented / transposed cell
@@ -627,9 +773,9 @@ def add_ghost(rng, case, atol, which=None):
     if k < 2:
         return False
     L = np.array(case["cell"], dtype=float)
-    which = which or rng.choice(["std", "std", "transpose"])
-    La = alt_lattices(L)[which]
-    if np.abs(La - L).max() < 0.75 or abs(np.linalg.det(La)) < 1e-6:
+    which = which or ("given" if lattice is not None else rng.choice(["std", "std", "transpose"]))
+    La = np.array(lattice, dtype=float) if lattice is not None else alt_lattices(L)[which]
+    if np.abs(La - L).max() < 0.45 or abs(np.linalg.det(La)) < 1e-6:
         return False                       # the same lattice: the "ghost" would be a genuine copy
     Li, Lai = np.linalg.inv(L), np.linalg.inv(La)
     P = np.array(pat["pos"], dtype=float)
